@@ -279,7 +279,65 @@ def rule_inval(ctx):
            'stream embedding threads the in-value through next() and returns it at the end', s.node, s.module)
 
 
+def rule_once(ctx):
+    ctx.rule('C13.once', 'an accumulator (a local list/dict built by the generator) that has been yielded is rebound before anything '
+                         'that can end the stream: otherwise the end-of-stream flush emits the same object a second time')
+    base, subs = pattern_classes(ctx)
+    n = 0
+    for ci in [base] + subs:
+        for nm, f in ci.methods.items():
+            if not f.is_generator or not (nm == '__embed__' or nm.startswith('_')):
+                continue
+            acc = set()
+            for st in walk_local(f.node):
+                if isinstance(st, ast.Assign) and isinstance(st.value, (ast.List, ast.ListComp, ast.Dict, ast.DictComp)) or \
+                        (isinstance(st, ast.Assign) and isinstance(st.value, ast.Call) and norm(st.value.func) in ('list', 'dict')):
+                    for t in st.targets:
+                        if isinstance(t, ast.Name):
+                            acc.add(t.id)
+            ys = [y for y in walk_local(f.node) if isinstance(y, ast.Yield) and isinstance(y.value, ast.Name) and y.value.id in acc]
+            if not ys:
+                continue
+            n += 1
+
+            def mr(node):
+                for c in U.calls(node):
+                    if U.method_name(c) == 'next':
+                        return ['StopStream']
+                return False
+            bad = None
+            try:
+                paths = enumerate_paths(f.node, may_raise=mr, unroll=2, max_paths=80000, repo=ctx.repo)
+            except Exception:
+                paths = []
+            for ev, out in paths:
+                emitted = {}
+                for k, node, x in ev:
+                    if k != 'stmt':
+                        continue
+                    yv = None
+                    if isinstance(node, (ast.Assign, ast.Expr)) and isinstance(node.value, ast.Yield) and isinstance(node.value.value, ast.Name):
+                        yv = node.value.value.id
+                    if yv in acc:
+                        if emitted.get(yv):
+                            bad = (node, yv)
+                            break
+                        emitted[yv] = True
+                    if isinstance(node, ast.Assign):
+                        for t in node.targets:
+                            if isinstance(t, ast.Name) and t.id in acc and not (yv == t.id):
+                                emitted[t.id] = False
+                if bad:
+                    break
+            ctx.ob('C13.once', f'{f.fq}:yield-once', bad is None,
+                   (f'`{norm(bad[0])}` can emit the list {bad[1]!r} a second time: it was already yielded and is not rebound before a call that can '
+                    f'end the stream (the end-of-stream flush repeats the last chunk)') if bad else f'accumulators {sorted(acc)} are rebound after each yield',
+                   bad[0] if bad else f.node, f.module)
+    ctx.require(n >= 1, 'C13.once', 'no accumulator-yielding generator found (Pclump vanished?)')
+
+
 def run(ctx):
+    rule_once(ctx)
     rule_wf(ctx)
     rule_pure(ctx)
     rule_fresh(ctx)
@@ -312,6 +370,8 @@ MUTANTS = [
          old="        return (yield from self._recgen(\n            inval, 0, max_level, patterns, streams, values))", new="        yield from self._recgen(inval, 0, max_level, patterns, streams, values)"),
     dict(rule='C13.inval', name='(fix reverted) Prout sends a stale in-value', file='sc3/seq/patterns/funcpatterns.py',
          old="                    inval = yield iterator.send(inval)", new="                    yield iterator.send(inval)"),
+    dict(rule='C13.once', name='Pclump resets its list after drawing the size', file='sc3/seq/patterns/filterpatterns.py',
+         old="                lst = []\n                n = n_stream.next(inval)\n                for _ in range(int(n)):", new="                n = n_stream.next(inval)\n                lst = []\n                for _ in range(int(n)):"),
 ]
 
 REPAIRS = []
